@@ -322,6 +322,21 @@ def discharge(fn, s):
         off = cfg.expr_operand(fn, t["args"][1], 14)
         if char_boundary_offset(fn, off, recv):
             return "split_at an offset reported by char_indices of the same string (or its length)"
+    if k in ("string-index", "index-call") and t.get("k") == "call" and FACTS is not None:
+        # slicing a str (Index::index with a range, split_at) at offsets that are character boundaries of that string, not beyond its
+        # end, by construction (rules/utf8.py: the provenance of the offset)
+        key = (t["f"].get("fn") or {}).get("key", "")
+        if (key == "str::split_at" or key.endswith("Index::index")) and len(t["args"]) == 2 \
+                and is_local(t["args"][0]) is not None and fn.local_ty(is_local(t["args"][0])) in ("&str", "&mut str", "&&str"):
+            from rules import utf8 as _utf8
+            recv = cfg.expr_operand(fn, t["args"][0], 10)
+            off = cfg.expr_operand(fn, t["args"][1], 14)
+            offs = [off] if key == "str::split_at" else (list(off[3]) if off[0] == "adt" and off[1] in ("std::ops::RangeFrom", "std::ops::RangeTo") else None)
+            if offs:
+                B = _utf8.Boundary(FACTS, fn, recv)
+                rs = [B.ok(o) for o in offs]
+                if all(r for r, _ in rs):
+                    return "str sliced at a character boundary within the string by construction (%s)" % "; ".join(w for _, w in rs)
     if k in ("assert:DivisionByZero", "assert:RemainderByZero"):
         e = cfg.expr_operand(fn, t["cond"], 4)
         if e[0] == "bin" and e[1] == "Eq" and e[2][0] == "const" and e[3] == ("const", 0) and e[2][1] not in (0, None):
